@@ -78,6 +78,10 @@ def build(case):
     return place(carrier, position, key, enc(t, times), trail)
 
 
+import re
+PROTO_RE = re.compile(r"^[a-zA-Z]{0,64}:?//")
+
+
 def candidates(u):
     """everything a single step may legitimately return for u (necessary condition of the statement)"""
     out = {u}
@@ -91,6 +95,9 @@ def candidates(u):
                 out.add("https://" + d)
                 try:
                     out.add(std_urljoin(u, d))
+                    if not PROTO_RE.match(u):
+                        # a url given without protocol is joined as if it had one, and stays without
+                        out.add(std_urljoin("http://" + u, d)[7:])
                 except ValueError:
                     pass
     for i in (k + 1 for k, c in enumerate(u) if c == "/"):
